@@ -43,6 +43,11 @@ def gen_trees(tier, side):
             t = dict(a)
             t.update(d)
             out.append(t)
+    # three levels below the top: intermediate directories that hold no file themselves
+    for f in fv[:2]:
+        out.append({"d/s/t/y": f})
+        out.append({"d/s/t/y": f, "d/x": fv[0]})
+        out.append({"a/z": f, "d/s/t/y": f, "d/s/t/w": fv[1]})
     return out
 
 
@@ -93,7 +98,7 @@ def make_target(tree, form, odb):
     return idx
 
 
-def one_exec(prior, target, form, delete, link, missing=(), missing_dir=None):
+def one_exec(prior, target, form, delete, link, missing=(), missing_dir=None, hashless=False):
     from dvc_data.index import build as ibuild
     from dvc_data.index import md5 as imd5
     from dvc_data.index.checkout import apply, compare
@@ -111,7 +116,8 @@ def one_exec(prior, target, form, delete, link, missing=(), missing_dir=None):
             # the directory object of this (lazily loaded) top-level directory is not in storage
             ent = tgt[(missing_dir,)]
             os.unlink(odb.oid_to_path(ent.hash_info.value))
-        old = imd5(ibuild(ws, LFS))
+        # the first compare may be given a workspace index without content hashes
+        old = ibuild(ws, LFS) if hashless else imd5(ibuild(ws, LFS))
         errors = []
         try:
             diff = compare(old, tgt, delete=delete)
@@ -211,9 +217,15 @@ def run_case(case):
         kc = [k for k in (set(prior) & td) | (set(target) & pd)]
         for form in ("explicit", "lazy"):
             for delete in (True, False):
+                if not delete and form == "lazy" and case["tier"] != "thorough":
+                    continue
                 links = case["links"]
-                for link in links:
-                    viol, info = one_exec(prior, target, form, delete, link)
+                for link in links + ["copy/hashless-old"]:
+                    hashless = link.endswith("hashless-old")
+                    if hashless and not delete:
+                        continue
+                    link = link.split("/")[0]
+                    viol, info = one_exec(prior, target, form, delete, link, hashless=hashless)
                     res["n"] += 1
                     res["trans"] += 4
                     res["vac"]["chmod_left_observed"] += info["chmod_left"]
@@ -222,7 +234,8 @@ def run_case(case):
                         if sig not in sigs:
                             sigs.add(sig)
                             res["viol"].append((sig, detail, {"prior": prior, "target": target, "form": form,
-                                                              "delete": delete, "link": link, "missing": []}))
+                                                              "delete": delete, "link": link, "missing": [],
+                                                              "hashless": hashless}))
         d = digest_obj((prior, target))
         res["states"].append(d)
         if prior and target and prior != target:
@@ -273,7 +286,7 @@ def run_case(case):
 def replay(case):
     fix = lambda t: {k: tuple(v) for k, v in t.items()}  # noqa: E731
     return one_exec(fix(case["prior"]), fix(case["target"]), case["form"], case["delete"], case["link"],
-                    case.get("missing", []), case.get("missing_dir"))[0]
+                    case.get("missing", []), case.get("missing_dir"), case.get("hashless", False))[0]
 
 
 def run(ctx):
@@ -289,7 +302,8 @@ def run(ctx):
     ctx.bound = {"priors": len(priors), "targets": len(targets),
                  "links": ["copy"] + (["hardlink", "symlink"] if ctx.tier == "thorough" else ["(hardlink, symlink on every 5th prior)"])}
     ctx.assumptions = [
-        "the old side of a compare carries hashes (build + md5, as dvc does)",
+        "the old side of the *second* compare carries hashes (build + md5, as dvc does); the first compare is run "
+        "both with a hashed and with a hash-less workspace index",
         "second compare: the four create/delete action lists must be empty; a non-empty chmod list is only counted "
         "(the property demands that executable entries become executable, not that the exec bit is ever cleared)",
         "without delete only files that are neither target paths nor in the way of a target path must survive",
